@@ -47,6 +47,19 @@ def make_gateway(group, kind, execmodel, python=None, tag="g"):
     if kind == "socket_gevent_host":  # a socket server hosted by a gevent gateway: the worker's reads and writes are cooperative
         m = group.makegateway(f"popen//execmodel=gevent//id={tag}m")
         return group.makegateway(f"socket//installvia={m.id}//execmodel=gevent//id={tag}")
+    if kind == "socket_installvia_second":
+        # socket//installvia=<host>: every socket gateway gets a one-connection server inside the host's process; an earlier socket
+        # gateway changed the directory and went away, the gateway under test is the next one through the same host
+        import tempfile
+
+        d = tempfile.mkdtemp(prefix="verif-iv-")
+        group._verif_cleanup = getattr(group, "_verif_cleanup", []) + [(None, d)]
+        m = group.makegateway(f"popen//id={tag}m")
+        first = group.makegateway(f"socket//installvia={m.id}//chdir={d}/elsewhere//id={tag}first")
+        assert first.remote_exec("import os\nchannel.send(os.getcwd())").receive(20).endswith("elsewhere")
+        first.exit()
+        first.join(10)
+        return group.makegateway(f"socket//installvia={m.id}//execmodel={execmodel}//id={tag}")
     if kind == "socket_standalone_second":
         # the stand-alone server script (python socketserver.py host:port, serving one connection after the other): an earlier gateway
         # changed the directory and went away; the gateway under test is the next connection to the same server
